@@ -373,6 +373,34 @@ def dense_form(rep, ctx, m, t, rule):
     if u is None:
         rep.inconc(rule, "%s:%s:interp" % (rule, fn), "interpolate does not write yi componentwise")
         return None
+    # an early return is part of the function too: where its path condition holds at a point strictly inside a step (forward
+    # or backward) the value it leaves in yi must be the same polynomial the fall-through path computes
+    import pnum
+    for pc_, v_, nd_ in getattr(isx, "early_returns", []):
+        if isinstance(v_, Poly) and v_ == u:
+            continue
+        hit = None
+        undecided = None
+        for hh_ in (0.5, -0.5):
+            for th_ in (0.25, 0.5, 0.75):
+                leaf_ = lambda nm, hh_=hh_, th_=th_: {"HH": hh_, "TH": th_, "XOLD": 1.0}.get(nm, 0.37 + (sum(map(ord, nm)) % 89) / 1000.0)
+                try:
+                    holds = all((pnum.value(cv_, {}, leaf_) is True) == (br_ == "then") for n_, br_, cv_ in pc_ if cv_ is not None)
+                except pnum.NoEval as e_:
+                    undecided = str(e_)
+                    continue
+                if holds and hit is None:
+                    hit = (hh_, th_)
+        conds_ = " && ".join(("" if br_ == "then" else "!") + "(" + tast.render(n_["cond"])[:60] + ")" for n_, br_, cv_ in pc_)
+        if hit:
+            rep.violation(rule, "%s:%s:early-return" % (rule, r["fn"]),
+                          "%s returns early under `%s`, which holds strictly inside a step (theta = %s, h = %+.1f), leaving yi = %s instead of the interpolation polynomial"
+                          % (r["fn"], conds_, hit[1], hit[0], repr(v_)[:80]), span(nd_) if isinstance(nd_, dict) else None)
+            return None
+        if undecided:
+            rep.inconc(rule, "%s:%s:early-return" % (rule, r["fn"]), "%s returns early under `%s`, which could not be evaluated at the model points (%s)" % (r["fn"], conds_, undecided),
+                       span(nd_) if isinstance(nd_, dict) else None)
+            return None
     cont = r["cont"]
     mapping = {"HH": r["h"], "XOLD": r["xold"]}
     missing = []
